@@ -91,7 +91,9 @@ def anneal_temperature_range(model, start_flip_prob=0.5,
     # if the model is empty or just an offset
     # ``_variables`` is an upper bound until the model is refreshed, so also
     # check that there is at least one nonconstant term
-    if not variables or not any(k for k in model):
+    # a plain dict may contain explicit zero coefficients; they do not
+    # contribute to any energy change.
+    if not variables or not any(c for k, c in model.items() if k):
         return 0, 0
 
     factor = 2  # should be this (I think)
@@ -99,7 +101,9 @@ def anneal_temperature_range(model, start_flip_prob=0.5,
 
     # calculate the approximate minimum possible change in energy by flipping
     # a single bit.
-    min_del_energy = factor * min(abs(c) for k, c in model.items() if k)
+    min_del_energy = factor * min(
+        abs(c) for k, c in model.items() if k and c
+    )
     # calculate the approximate maximum possible change in energy by flipping
     # a single bit.
     max_del_energy = factor * max(
